@@ -12,35 +12,7 @@ fn fmt_stub(_: rstd::fmt::Arguments<'_>) -> rstd::string::String {
     rstd::string::String::new()
 }
 
-pub(crate) fn fake_global() -> &'static ManuallyDrop<Arc<GlobalVmState>> {
-    let a: Arc<MaybeUninit<GlobalVmState>> = Arc::new_uninit();
-    let a: Arc<GlobalVmState> = unsafe { a.assume_init() };
-    Box::leak(Box::new(ManuallyDrop::new(a)))
-}
-
-pub(crate) fn mk_thread(
-    global: &Arc<GlobalVmState>,
-    parent: Option<&'static Thread>,
-    generation: Generation,
-) -> &'static Thread {
-    let t = Thread {
-        // bitwise copy of the Arc; neither copy is ever dropped
-        global_state: unsafe { rstd::ptr::read(global) },
-        parent: parent.map(|p| unsafe { GcPtr::from_raw(p as *const Thread) }),
-        rooted_values: RwLock::new(Vec::new()),
-        child_threads: Default::default(),
-        thread_index: usize::MAX,
-        context: Mutex::new(Context::new(Gc::new(generation, usize::MAX))),
-        interrupt: AtomicBool::new(false),
-    };
-    let b: &'static mut ManuallyDrop<Thread> = Box::leak(Box::new(ManuallyDrop::new(t)));
-    &**b
-}
-
-/// the context lock of a hand-built thread, for harnesses that live in other modules
-pub(crate) fn lock_context(t: &'static Thread) -> MutexGuard<'static, Context> {
-    t.context.lock().unwrap()
-}
+use super::__verif_common__vm_thread::{fake_global, lock_context, mk_thread};
 
 /// Tree:        root(0)                other_vm(0)
 ///             /      \
